@@ -12,7 +12,7 @@ RULE = ("1-D/2-D/3-D histograms of every dtype with missed values, custom errors
 MODELLED = ("__mul__/__imul__/__rmul__/__truediv__/__itruediv__, normalize, Histogram2D.partial_normalize, Statistics.__mul__, "
             "_coerce_dtype are modelled in coq/Model/ScaleCases.v; float rounding of non-dyadic factors is covered by the stated "
             "tolerance, not modelled")
-KINDS = ["pyint", "pyfloat", "np.int64", "np.int32", "np.float64", "np.float32", "np.float128"]
+KINDS = ["pyint", "pyfloat", "np.int64", "np.int32", "np.int16", "np.float64", "np.float32", "np.float128"]
 
 def pow2(c):
     c = Fr(c)
@@ -37,6 +37,9 @@ def gen(rng, n, tier):
                 kind = rng.choice(KINDS)
                 if "int" in kind: c = Fr(rng.choice([1, 2, 3, 4, 5, 8] if not exact else [1, 2, 4, 8]))
                 else: c = Fr(rng.choice([1, 2, 4, 8, 16]), rng.choice([1, 2, 4, 8])) if exact else Fr(rng.choice([3, 5, 7, 10, 25, 3]), rng.choice([2, 4, 8, 10, 3]))
+                # a factor whose square does not fit the scalar's own type (np.int16(256)**2, np.int32(65536)**2 wrap to 0)
+                if kind in ("np.int16", "np.int32") and dtype in ("int64", "float64", "float128") and len(ops) == 0 and rng.random() < 0.5:
+                    c = Fr(256 if kind == "np.int16" else 65536)
                 if not exact and "float" in kind:
                     import numpy as np
                     c = Fr(float(np.float32(float(c)))) if kind == "np.float32" else Fr(float(c))
